@@ -172,8 +172,11 @@ def run(module, cfg, name=None, workers=16, timeout=600, simulate=None, depth=No
     elif "Deadlock reached" in out:
         r.error_kind = "deadlock"
         r.violated.append("<deadlock>")
-    r.ok = ("No error has been found" in out) or (simulate and rc == -9 and not r.violated
-                                                  and "Error:" not in out)
+    r.ok = ("No error has been found" in out) or bool(simulate and not r.violated and "Error:" not in out)
+    if simulate:
+        m = re.search(r"The number of states generated: (\d+)", out)
+        if m:
+            r.generated = int(m.group(1))
     for mm in _RE_COV.finditer(out):
         act = mm.group(1)
         d, g = int(mm.group(7)), int(mm.group(8))
